@@ -77,6 +77,8 @@ def canon_compiled_record(cfg, rec, want_inputs=True):
                             for j in range(i.seq.shape[1])]
                 wins.append(w)
             cols["wins"] = wins
+            # the float side channel of every window entry (NaN / inf survive json as NaN / Infinity)
+            cols["winf"] = [{m: [float(onp.asarray(i.data.f)[k][j][0]) for j in range(i.seq.shape[1])] for m, i in st.inputs.items()} for k in range(len(cols["seq"]))]
         rows[n] = cols
     return rows
 
@@ -331,7 +333,8 @@ def run_c10(job):
             N[n] = P(name=n, rate=64 // nd["period"], delay=nd["exp"] * T, delay_dist=aw.TableDist.create(nd["delays"]), nid=nd["nid"])
         for c, c_ in cfg["conns"].items():
             dd = delay_dist_for_tc if c == tc else aw.TableDist.create(c_["delays"])
-            N[c_["in"]].connect(N[c_["out"]], blocking=False, delay=c_["exp"] * T, delay_dist=dd, window=c_["window"], skip=c_["skip"], jitter=const.Jitter.LATEST)
+            kw_ = dict(name=job["shadow"]) if (c == tc and job.get("shadow")) else {}     # the trainable connection may be registered under a shadow input name
+            N[c_["in"]].connect(N[c_["out"]], blocking=False, delay=c_["exp"] * T, delay_dist=dd, window=c_["window"], skip=c_["skip"], jitter=const.Jitter.LATEST, **kw_)
         return N
     tdist = base.TrainableDist.create(delay=mn * T, min=mn * T, max=mx * T, interp="zoh")
     NT = mk(tdist)
@@ -346,7 +349,8 @@ def run_c10(job):
     for d in job["delays"]:
         r = dict()
         # (a) trainable, delay given through init_delays (values outside [min, max] must saturate)
-        P.override = {(cc["in"], cc["out"]): d * T}
+        in_name = job.get("shadow") or cc["out"]
+        P.override = {(cc["in"], in_name): d * T}
         try:
             r["trainable"] = record_of(GT, rollT, jax.random.PRNGKey(1))
         except Exception as ex:  # noqa
@@ -355,10 +359,10 @@ def run_c10(job):
         # (a') trainable, delay given through the distribution itself (only inside [min, max]: create() asserts the range)
         if mn <= d <= mx and job.get("via_dist", True):
             gs = GT.init(jax.random.PRNGKey(1))
-            inp = gs.inputs[cc["in"]][cc["out"]]
+            inp = gs.inputs[cc["in"]][in_name]
             nd_ = base.TrainableDist.create(delay=d * T, min=mn * T, max=mx * T, interp="zoh")
             nd_ = nd_.replace(alpha=jnp.asarray(nd_.alpha, dtype=jnp.float32))   # init_record needs array leaves
-            gs = gs.replace(inputs=gs.inputs.copy({cc["in"]: gs.inputs[cc["in"]].copy({cc["out"]: inp.replace(delay_dist=nd_)})}))
+            gs = gs.replace(inputs=gs.inputs.copy({cc["in"]: gs.inputs[cc["in"]].copy({in_name: inp.replace(delay_dist=nd_)})}))
             gs = GT.init_record(gs, rng=False, inputs=True, state=True, output=True)
             r["trainable_dist"] = canon_compiled_record(cfg, rollT(gs).aux["record"])
         # (b) static: the edge of that connection regenerated at Deterministic(clip(d))
